@@ -27,6 +27,8 @@ struct St {
     /// state as of the last write (post-write object) per member
     written: BTreeMap<usize, VGroup>,
     p_reload: (u32, u32),
+    /// a second group of the same client, kept in the same storage
+    siblings: BTreeMap<usize, VGroup>,
 }
 
 fn ek<E: std::fmt::Debug>(e: &E) -> String {
@@ -136,7 +138,65 @@ impl St {
         if let Ok(Ok(())) = guarded(|| g.write_to_storage()) {
             self.written.insert(who, w.g(who).clone());
             self.provider_equivalence(w, who, "write");
+            if w.rng.chance(1, 3) {
+                self.sibling_activity(w, who);
+            }
         }
+    }
+
+    /// The same client keeps a second group in the same storage; that group runs ahead and is
+    /// written. What is stored for the first group must not change.
+    fn sibling_activity(&mut self, w: &mut World, who: usize) {
+        let hi = w.g(who).current_epoch() + 2;
+        let gid = w.group_id.clone();
+        let before = w.parties[who].stores.gs.dump(&gid, hi);
+        if !self.siblings.contains_key(&who) {
+            let c = &w.parties[who].client;
+            match guarded(|| c.create_group(Default::default(), Default::default(), None)) {
+                Ok(Ok(g)) => {
+                    self.siblings.insert(who, g);
+                }
+                _ => return,
+            }
+        }
+        let target = w.g(who).current_epoch() + w.cfg.retention + 1 + w.rng.below(3) as u64;
+        let g2 = self.siblings.get_mut(&who).unwrap();
+        let mut steps = 0;
+        while g2.current_epoch() < target && steps < 80 {
+            steps += 1;
+            if !matches!(guarded(|| g2.commit(vec![])), Ok(Ok(_))) || !matches!(guarded(|| g2.apply_pending_commit()), Ok(Ok(_))) {
+                return;
+            }
+            if steps % 3 == 0 && !matches!(guarded(|| g2.write_to_storage()), Ok(Ok(()))) {
+                return;
+            }
+        }
+        if !matches!(guarded(|| g2.write_to_storage()), Ok(Ok(()))) {
+            return;
+        }
+        let after = w.parties[who].stores.gs.dump(&gid, hi);
+        w.out.cov.bump("sibling_group_writes");
+        w.out.cov.eval(Some(fnv(format!("sibling|{:?}|{}", w.cfg.backend, before.epochs.len()).as_bytes())));
+        let mut d = vec![];
+        if before.max_epoch_id != after.max_epoch_id {
+            d.push(format!("max_epoch_id {:?} -> {:?}", before.max_epoch_id, after.max_epoch_id));
+        }
+        if before.epochs.keys().collect::<Vec<_>>() != after.epochs.keys().collect::<Vec<_>>() {
+            d.push(format!("stored epochs {:?} -> {:?}", before.epochs.keys().collect::<Vec<_>>(), after.epochs.keys().collect::<Vec<_>>()));
+        } else if before.epochs != after.epochs {
+            d.push("stored epoch records changed".into());
+        }
+        if before.state != after.state {
+            d.push("stored snapshot changed".into());
+        }
+        if !d.is_empty() {
+            w.violate(
+                format!("C06|stored_history_changed_by_another_groups_write|{:?}", w.cfg.backend),
+                format!("member {who} (retention {}): after its second group was written at epoch {}: {d:?}", w.cfg.retention, self.siblings[&who].current_epoch()),
+            );
+        }
+        self.provider_equivalence(w, who, "write_of_second_group");
+        self.crash_check(w, who);
     }
 
     /// the process died some unwritten operations after the last write: a fresh load returns
@@ -196,7 +256,7 @@ impl St {
         }
         if !diffs.is_empty() {
             w.violate(
-                format!("C06|providers_expose_different_history|{}", diffs[0].split(' ').take(3).collect::<Vec<_>>().join("_")),
+                format!("C06|providers_expose_different_history|{}", diffs[0].split(' ').take(3).collect::<Vec<_>>().join("_").chars().filter(|c| !c.is_ascii_digit()).collect::<String>()),
                 format!("member {who} after {at} (retention {}): {diffs:?}", w.cfg.retention),
             );
         }
@@ -268,6 +328,7 @@ pub fn run(a: &Args) -> ShardOut {
         let mut st = St {
             twins: BTreeMap::new(),
             written: BTreeMap::new(),
+            siblings: BTreeMap::new(),
             p_reload: (1, 5),
         };
         if let Err(e) = history(&mut w, &mut st, rounds) {
